@@ -320,6 +320,22 @@ func (b *book) add(class string, ex *example) {
 	}
 }
 
+// improves counts one occurrence of class and reports whether ex would replace the example
+// held for it (so that the costly confirmation is only done for those).
+func (b *book) improves(class string, ex *example) bool {
+	b.mu.Lock()
+	defer b.mu.Unlock()
+	if b.m == nil {
+		b.m, b.n = map[string]*example{}, map[string]int{}
+	}
+	old := b.m[class]
+	if old == nil || less(ex, old) {
+		return true
+	}
+	b.n[class]++
+	return false
+}
+
 func less(a, b *example) bool {
 	for i := range a.cost {
 		if a.cost[i] != b.cost[i] {
@@ -363,6 +379,9 @@ type corpus struct {
 	docs  []Doc
 	trees []*tree
 	built []built
+	// number of index-internal documents under the nested mapping (request size: nothing
+	// may be cut off even when elements are wrongly returned as hits)
+	internal int
 }
 
 func chk(err error) {
@@ -428,8 +447,16 @@ type checker struct {
 	bk *book
 }
 
+// symptomClass names a violation of "hits are parents, each once, Total = parents".
+func symptomClass(kind string, q *Q, nested bool) string {
+	if nested && elementHitsShape(q) {
+		return classElemHits
+	}
+	return kind + ":" + mappingName(nested) + ":" + shapeSig(q)
+}
+
 // search runs one request and returns the hit ids (nil, false when it was reported).
-func (ck *checker) search(idx bleve.Index, q *Q, size int, score string, where func() map[string]any) (map[string]bool, uint64, bool) {
+func (ck *checker) search(idx bleve.Index, nested bool, q *Q, size int, score string, where func() map[string]any) (map[string]bool, uint64, bool) {
 	req := bleve.NewSearchRequest(q.ToBleve())
 	req.Size = size
 	req.Score = score
@@ -437,34 +464,63 @@ func (ck *checker) search(idx bleve.Index, q *Q, size int, score string, where f
 	var err error
 	pv, st := mc.Try(func() { res, err = idx.Search(req) })
 	ck.r.Eval(1)
+	// cost of a symptom example: query size, then request size (= corpus size)
+	report := func(class string, what func(rep map[string]any) string) {
+		ex := &example{cost: [3]int{q.nodes(), size, len(q.String())}, key: q.String() + score}
+		if !ck.bk.improves(class, ex) {
+			return
+		}
+		ex.replay = where()
+		ex.detail = what(ex.replay)
+		ck.bk.add(class, ex)
+	}
 	if pv != nil {
-		rep := where()
-		ck.bk.add("panic:"+shapeSig(q), &example{cost: [3]int{q.nodes(), 0, 0}, key: q.String(),
-			detail: fmt.Sprintf("search panicked: %v @ %s — %v", pv, mc.TrimStack(st), rep), replay: rep})
+		report("panic:"+mappingName(nested)+":"+shapeSig(q), func(rep map[string]any) string {
+			return fmt.Sprintf("search panicked: %v @ %s — %s %s", pv, mc.TrimStack(st), q, brief(rep))
+		})
 		return nil, 0, false
 	}
 	if err != nil {
-		rep := where()
-		ck.bk.add("error:"+shapeSig(q), &example{cost: [3]int{q.nodes(), 0, 0}, key: q.String(),
-			detail: fmt.Sprintf("search returned error %v — %v", err, rep), replay: rep})
+		report("error:"+mappingName(nested)+":"+shapeSig(q), func(rep map[string]any) string {
+			return fmt.Sprintf("search returned error %v — %s %s", err, q, brief(rep))
+		})
 		return nil, 0, false
 	}
 	got := map[string]bool{}
 	for _, h := range res.Hits {
 		if got[h.ID] {
-			rep := where()
-			rep["duplicate"] = h.ID
-			ck.bk.add("duplicate-hit:"+shapeSig(q), &example{cost: [3]int{q.nodes(), 0, 0}, key: q.String(),
-				detail: fmt.Sprintf("parent %s returned more than once — %v", h.ID, rep), replay: rep})
+			id := h.ID
+			report(symptomClass("duplicate-hit", q, nested), func(rep map[string]any) string {
+				rep["duplicate"] = id
+				return fmt.Sprintf("%s: parent %s returned more than once %s", q, id, brief(rep))
+			})
 		}
 		got[h.ID] = true
 	}
 	if int(res.Total) != len(got) {
-		rep := where()
-		ck.bk.add("total:"+shapeSig(q), &example{cost: [3]int{q.nodes(), 0, 0}, key: q.String(),
-			detail: fmt.Sprintf("Total=%d but %d distinct parents returned (size %d) — %v", res.Total, len(got), size, rep), replay: rep})
+		report(symptomClass("total", q, nested), func(rep map[string]any) string {
+			return fmt.Sprintf("%s: Total=%d but %d distinct hits returned (size %d) %s", q, res.Total, len(got), size, brief(rep))
+		})
 	}
 	return got, res.Total, true
+}
+
+// brief renders the small parts of a replay map for the detail line.
+func brief(rep map[string]any) string {
+	var p []string
+	for _, k := range []string{"mapping", "layout", "corpus", "stage", "score"} {
+		if v, ok := rep[k]; ok {
+			p = append(p, fmt.Sprintf("%s=%v", k, v))
+		}
+	}
+	if h, ok := rep["history"]; ok {
+		p = append(p, fmt.Sprintf("history=%v", h))
+	}
+	if d, ok := rep["docs"].(map[string]any); ok && len(d) <= 2 {
+		b, _ := json.Marshal(d)
+		p = append(p, "docs="+string(b))
+	}
+	return "[" + strings.Join(p, " ") + "]"
 }
 
 // confirmAlone re-runs q on a fresh one-segment index holding only parent d.
@@ -472,11 +528,22 @@ func (ck *checker) confirmAlone(q *Q, d Doc, nested bool, score string, wantHit 
 	idx := newMem(nested)
 	defer idx.Close()
 	chk(idx.Index("p", d.Data()))
-	got, _, ok := ck.search(idx, q, 5, score, func() map[string]any {
-		return map[string]any{"mapping": mappingName(nested), "docs": map[string]any{"p": d.Data()}, "query": queryJSON(q)}
+	got, _, ok := ck.search(idx, nested, q, 5+d.size(), score, func() map[string]any {
+		return map[string]any{"mapping": mappingName(nested), "docs": map[string]any{"p": d.Data()}, "query": queryJSON(q), "query_text": q.String(), "score": score}
 	})
 	if !ok {
 		return false
+	}
+	for id := range got {
+		if id != "p" {
+			class := symptomClass("non-parent-hit", q, nested)
+			ex := &example{cost: [3]int{q.nodes(), 5 + d.size(), len(q.String())}, key: q.String() + score}
+			if ck.bk.improves(class, ex) {
+				ex.replay = map[string]any{"mapping": mappingName(nested), "docs": map[string]any{"p": d.Data()}, "query": queryJSON(q), "query_text": q.String(), "score": score, "foreign_hit": id}
+				ex.detail = fmt.Sprintf("%s: hit %q is not a parent document %s", q, id, brief(ex.replay))
+				ck.bk.add(class, ex)
+			}
+		}
 	}
 	return got["p"] != wantHit
 }
@@ -499,7 +566,7 @@ func (ck *checker) evalQ(c *corpus, b built, q *Q, score string, want []Tri) {
 		return map[string]any{"mapping": mappingName(nested), "layout": layoutName[layout], "corpus": c.name,
 			"docs": docs, "query": queryJSON(q), "query_text": q.String(), "score": score}
 	}
-	got, _, ok := ck.search(idx, q, len(c.docs)+5, score, where)
+	got, _, ok := ck.search(idx, nested, q, c.internal+5, score, where)
 	if !ok {
 		r.Outcome(mappingName(nested) + "|" + q.Kind + "|failed")
 		return
@@ -517,8 +584,12 @@ func (ck *checker) evalQ(c *corpus, b built, q *Q, score string, want []Tri) {
 			continue
 		}
 		extra := got[id]
-		class := classify(q, nested, extra)
+		class := classify(q, nested, score, extra)
 		d := c.docs[i]
+		ex := &example{cost: [3]int{q.nodes(), d.size(), len(q.String())}, key: q.String() + d.String() + score + layoutName[layout]}
+		if !ck.bk.improves(class, ex) {
+			continue // counted; a smaller counterexample of the class is already held
+		}
 		alone := ck.confirmAlone(q, d, nested, score, want[i] == Yes)
 		var rep map[string]any
 		if alone {
@@ -535,17 +606,22 @@ func (ck *checker) evalQ(c *corpus, b built, q *Q, score string, want []Tri) {
 		if extra {
 			dir = "wrongly in"
 		}
-		ck.bk.add(class, &example{cost: [3]int{q.nodes(), d.size(), len(q.String())}, key: q.String() + d.String() + score + layoutName[layout],
-			detail: fmt.Sprintf("[%s mapping, score=%q] %s: parent %s is %s the hits (reference: %v)", mappingName(nested), score, q, d, dir, want[i]),
-			replay: rep})
+		ex.detail = fmt.Sprintf("[%s mapping, score=%q] %s: parent %s is %s the hits (reference: %v)", mappingName(nested), score, q, d, dir, want[i])
+		ex.replay = rep
+		ck.bk.add(class, ex)
 	}
 	if nFound != len(got) {
 		for id := range got {
-			if _, known := c.pos[id]; !known {
-				rep := where()
-				rep["foreign_hit"] = id
-				ck.bk.add("non-parent-hit:"+shapeSig(q), &example{cost: [3]int{q.nodes(), 0, 0}, key: q.String(),
-					detail: fmt.Sprintf("hit %q is not a live parent document — %v", id, rep), replay: rep})
+			if _, known := c.pos[id]; known {
+				continue
+			}
+			class := symptomClass("non-parent-hit", q, nested)
+			ex := &example{cost: [3]int{q.nodes(), c.internal + 5, len(q.String())}, key: q.String() + score}
+			if ck.bk.improves(class, ex) {
+				ex.replay = where()
+				ex.replay["foreign_hit"] = id
+				ex.detail = fmt.Sprintf("%s: hit %q is not a live parent document %s", q, id, brief(ex.replay))
+				ck.bk.add(class, ex)
 			}
 		}
 	}
@@ -584,6 +660,7 @@ func partQ(r *mc.Run, ck *checker) {
 				c.ids = append(c.ids, id)
 				c.docs = append(c.docs, f.docs[i])
 				c.trees = append(c.trees, f.docs[i].tree())
+				c.internal += f.docs[i].size()
 			}
 			corpora = append(corpora, c)
 			ndocs += hi - lo
@@ -599,7 +676,7 @@ func partQ(r *mc.Run, ck *checker) {
 	// shape statistics (vacuity): how many queries contain a known shape
 	nKnown := 0
 	for _, q := range qs {
-		if len(knownShapes(q)) > 0 {
+		if len(knownShapes(q, true, "")) > 0 {
 			nKnown++
 		}
 	}
@@ -802,7 +879,7 @@ func (ck *checker) observe(idx bleve.Index, model map[string]int, path []op, sta
 	fmt.Fprintf(&sig, "n=%d", n)
 	for _, q := range histQueries {
 		where := func() map[string]any { m := rep(); m["query"] = queryJSON(q); m["query_text"] = q.String(); return m }
-		got, _, ok := ck.search(idx, q, 10, "", where)
+		got, _, ok := ck.search(idx, true, q, 40, "", where)
 		if !ok {
 			sig.WriteString("|failed")
 			continue
